@@ -18,7 +18,9 @@ DECIDED = [
     "HOST-CURSOR: after the user-info has been split off, host / port parsing reads only bytes after the '@'",
     "BUILDER: the builder's size estimate covers every piece appended before the parameter list (NUM: each such append has room); the per-parameter estimate term covers the per-parameter appends (accounting agreement of the two loops over the list); the built text is re-parsed by the same parser",
     "ENCODER: the worst-case reservation makes the raw-pointer appenders safe (C04 REQUIRES/SUMMARY on uri.c); an input byte is stored unescaped only under isalnum or an unreserved-character case label ('/' only in the path encoder); every other byte stored is '%' or an upper-case hex digit (NUM range of s_to_uppercase_hex for arguments < 16); the decoder's hex table maps exactly those digits back",
-    "QUERY: the list form is a loop over the iterator pushing each pair it yields; the iterator skips empty pairs and splits at the first '='",
+    "QUERY: the list form is a loop over the iterator pushing each pair it yields; the iterator skips empty pairs and splits at the first '='; inductively over calls (NUM) every yielded pair spans exactly the substring that was split and the substring handed back to the splitter on the next call is exactly that pair",
+    "DECODER (reported under ENCODER): no result of the hex-digit read is dropped and no rejection depends on the decoded byte's value (every byte value decodes)",
+    "PORT (reported under VIEW): a port whose digits parsed is refused only above UINT32_MAX and the narrowing store sees a value that fits (NUM)",
 ]
 NOT_DECIDED = ["that the component contents equal the generating components (needs the byte values: only the delimiter-structure rules above are decided)", "round-trip equality of encode/decode on contents beyond the table agreement",
                "wrap-around of the builder's size sum for views longer than 2^56 bytes"]
@@ -486,6 +488,192 @@ def query(R, P):
     R.check(len(mc) == 1 and "substr.ptr" in argstr(g, mc[0].node, 0), "QUERY", "next_param:first-equals", where(g, mc[0]) if mc else g.name, "key and value are split at the first '=' of the pair")
 
 
+def iterator_state(R, P):
+    """QUERY/reassembly: the iterator keeps its position in the pair it yielded last.  Inductive argument over calls (NUM):
+    (yield)   every `true` return leaves  key.ptr = start of the pair just split,  value.ptr + value.len = its end,
+              value.ptr >= key.ptr;
+    (resume)  given such a pair, the substring handed back to aws_byte_cursor_next_split starts at key.ptr and has
+              length (value.ptr + value.len) - key.ptr - i.e. it is exactly the pair yielded last, so the next split is
+              the next pair and none is skipped, repeated or started one byte late."""
+    f = P.fn("aws_query_string_next_param")
+    if not R.require(f is not None, "aws_query_string_next_param not found"):
+        return
+    R.fn(f)
+
+    class H(C04.ParserHooks):
+        def entry(self, num, st):
+            C04.ParserHooks.entry(self, num, st)
+            p = C04._param(num, st, 1)
+            b = num.base_of(st, p)
+            kp = num.field(st, b + "key.ptr", "aws_byte_cursor", "ptr")
+            vp = num.field(st, b + "value.ptr", "aws_byte_cursor", "ptr")
+            vl = num.field(st, b + "value.len", "aws_byte_cursor", "len")
+            st.notes["iter0"] = (kp, vp, vl)
+            st.notes["resume"] = st.copy()
+
+    asg = []
+    for b in f.blocks.values():
+        for el in b.elems:
+            if el["k"] == "bin" and el["op"] == "=" and f.show(f.d(el["a"][0])) in ("substr.len", "substr.ptr"):
+                asg.append(el)
+    if not R.require(len(asg) == 2, "next_param: re-assembly of the last pair not found (%d stores to substr)" % len(asg)):
+        return
+    rets = [x for b in f.blocks.values() for x in b.elems if x["k"] == "ret"]
+    # (yield)
+    num = Num(f, P, H(), max_paths=20000)
+    try:
+        sts = num.states_at({r["id"] for r in rets}, after_ids={a["id"] for a in asg})
+    except Limit as ex:
+        R.broken(str(ex))
+        return
+    ok, det, cnt = True, "", 0
+    for r in rets:
+        for st in sts.get(r["id"], []):
+            rv = num.val(r["a"][0], st)
+            if rv is None or not rv.is_const() or rv.cval() == 0:
+                continue
+            g = lambda sfx: [v for k, v in st.env.items() if k.endswith(sfx) and not k.startswith("v:")]
+            kp, vp, vl = g(")->key.ptr"), g(")->value.ptr"), g(")->value.len")
+            sp, sl = st.env.get("v:substr.ptr"), st.env.get("v:substr.len")
+            cnt += 1
+            if not (len(kp) == len(vp) == len(vl) == 1 and sp is not None and sl is not None):
+                ok, det = False, "pair fields not tracked at a yield"
+                continue
+            e1 = entails(st, kp[0] - sp) and entails(st, sp - kp[0])
+            e2 = entails(st, vp[0] + vl[0] - sp - sl) and entails(st, sp + sl - vp[0] - vl[0])
+            e3 = entails(st, kp[0] - vp[0])
+            if not (e1 and e2 and e3):
+                ok, det = False, "yield: key.ptr == start %s, value end == pair end %s, key.ptr <= value.ptr %s (trail %s)" % (e1, e2, e3, st.trail[-4:])
+    R.check(ok and cnt >= 2, "QUERY", "next_param:yield-spans-the-pair", "%s()" % f.name, "every yielded (key, value) starts where the pair starts and ends where it ends (%d states)" % cnt,
+            "a yielded pair does not span the substring that was split: %s" % det)
+    # (resume)
+    class H2(H):
+        def entry(self, num, st):
+            H.entry(self, num, st)
+            kp, vp, vl = st.notes["iter0"]
+            st.add(kp - vp)  # established by (yield)
+            st.add(vp + vl - 2 ** 62)  # the pair lies inside the query string (VIEW): its end is an address
+            st.add(-kp)
+    num = Num(f, P, H2(), max_paths=20000)
+    try:
+        sts = num.states_at(set(), after_ids={a["id"] for a in asg})
+    except Limit as ex:
+        R.broken(str(ex))
+        return
+    ok, det, cnt = True, "", 0
+    last = max(asg, key=lambda a: (a["loc"][0], a["loc"][1]))
+    for st in sts.get(("after", last["id"]), []):
+        kp, vp, vl = st.notes["iter0"]
+        sp, sl = st.env.get("v:substr.ptr"), st.env.get("v:substr.len")
+        cnt += 1
+        if sp is None or sl is None:
+            ok, det = False, "substr not tracked"
+            continue
+        e1 = entails(st, sp - kp) and entails(st, kp - sp)
+        e2 = entails(st, sl - (vp + vl - kp)) and entails(st, (vp + vl - kp) - sl)
+        if not (e1 and e2):
+            ok, det = False, "the substring handed back is {%r, %r}; the pair yielded last was {%r, %r}" % (sp, sl, kp, vp + vl - kp)
+    R.check(ok and cnt >= 1, "QUERY", "next_param:resumes-at-the-last-pair", "%s:%d in %s()" % (FILE, last["loc"][0], f.name), "the substring handed back to the splitter is exactly the pair yielded last (%d states)" % cnt,
+            "the iterator resumes from a substring that is not the pair it yielded last (%s): after a key without '=' the next pair starts one byte late, is cut, or runs past the query" % det)
+
+
+def decoder_total(R, P):
+    """DECODER: percent-decoding accepts every byte value: the only reason to reject is a failed read of the two hex digits.
+    No branch of the decoder depends on the decoded byte, and no result of aws_byte_cursor_read_hex_u8 is dropped."""
+    f = P.fn("aws_byte_buf_append_decoding_uri")
+    if not R.require(f is not None, "aws_byte_buf_append_decoding_uri not found"):
+        return
+    R.fn(f)
+    rd = f.calls("aws_byte_cursor_read_hex_u8")
+    R.require(len(rd) >= 1, "decoder: aws_byte_cursor_read_hex_u8 call not found")
+    refd = set()
+    for b in f.blocks.values():
+        for el in list(b.elems) + ([b.cond] if b.cond is not None else []):
+            for x in f.walk(el):
+                if x["k"] == "ref":
+                    refd.add(x["id"])
+    dropped = [e for e in rd if e.node["id"] not in refd]
+    R.check(not dropped, "ENCODER", "decode:hex-read-result-tested", where(f, rd[0]) if rd else f.name, "the outcome of reading the two hex digits is tested",
+            "the result of aws_byte_cursor_read_hex_u8 is dropped: malformed escapes are not told apart from decoded bytes")
+    outs = set()
+    for e in rd:
+        a = RU.strip_addr(f, RU.arg(f, e.node, 1))
+        if a is not None and a["k"] == "var":
+            outs.add(a["n"])
+    bad = []
+    for r_ in f.returns():
+        v = RU.uncast(f, r_.node["a"][0]) if r_.node["a"] else None
+        if v is None or not (v.get("k") == "call" and v.get("callee") == "aws_raise_error"):
+            continue
+        for c_, pol, b_ in RU.guards(f, r_):
+            if RU.cond_call(f, c_)[0] is not None or any(x["k"] == "call" for x in f.walk(f.d(c_), follow_refs=True)):
+                continue  # a test of a call's outcome
+            t = RU.cmp_norm(f, c_, pol)
+            if t and any(x["k"] == "var" and x["n"] in outs for x in f.walk(t[0], follow_refs=True)) and not (t[2] is not None and f.is_const(t[2]) == ord("%")):
+                bad.append(f.show(f.d(c_)))
+    R.check(not bad, "ENCODER", "decode:no-rejection-by-decoded-value", "%s()" % f.name, "no rejection depends on the value of the decoded byte (every byte value, 0x00 included, decodes)",
+            "the decoder rejects depending on the decoded byte (%s): a correctly escaped byte with that value (%%00) is refused, so encode-then-decode fails for it" % bad)
+
+
+def port_range(R, P):
+    """PORT: the authority parser accepts exactly the port numbers that fit the 32-bit field: once the digits parsed, ERROR is
+    set only if the value exceeds UINT32_MAX, and the narrowing store sees a value <= UINT32_MAX (NUM, all values)."""
+    f = P.fn("s_parse_authority")
+    if not R.require(f is not None, "s_parse_authority not found"):
+        return
+
+    class H(C04.ParserHooks):
+        def call(self, num, st, e, args):
+            if (e.get("callee") or "") == "aws_byte_cursor_utf8_parse_u64":
+                outs = []
+                s1 = st.copy()
+                pv = Poly.atom(num.fresh(s1, "port_value", None, (0, 2 ** 64 - 1)))
+                k = num.key(num.fn.d(RU.strip_addr(num.fn, e["a"][1])), s1) if RU.strip_addr(num.fn, e["a"][1]) is not None else None
+                if k:
+                    s1.env[k] = pv
+                s1.notes["port_ok"] = pv
+                s1.vals[e["id"]] = Poly.const(0)
+                s2 = st.copy()
+                s2.vals[e["id"]] = Poly.const(-1)
+                return [s1, s2]
+            return C04.ParserHooks.call(self, num, st, e, args)
+    num = Num(f, P, H(), max_paths=20000)
+    errv = P.enums.get("ERROR")
+    stores = []
+    for b in f.blocks.values():
+        for el in b.elems:
+            if el["k"] == "bin" and el["op"] == "=":
+                l = f.d(el["a"][0])
+                if l["k"] == "member" and l["f"] == "state" and f.is_const(el["a"][1]) == errv:
+                    stores.append(el)
+                if l["k"] == "member" and l["f"] == "port" and f.is_const(el["a"][1]) is None:
+                    stores.append(el)
+    if not R.require(errv is not None and len(stores) >= 3, "s_parse_authority: ERROR / port stores not found"):
+        return
+    try:
+        sts = num.states_at({s["id"] for s in stores})
+    except Limit as ex:
+        R.broken(str(ex))
+        return
+    ok, det, n_err, n_port = True, "", 0, 0
+    for s in stores:
+        is_port = f.d(s["a"][0])["f"] == "port"
+        for st in sts.get(s["id"], []):
+            pv = st.notes.get("port_ok")
+            if pv is None:
+                continue
+            if is_port:
+                n_port += 1
+                if not entails(st, pv - (2 ** 32 - 1)):
+                    ok, det = False, "the 64-bit value stored into the 32-bit port can exceed UINT32_MAX (it is truncated)"
+            else:
+                n_err += 1
+                if not entails(st, Poly.const(2 ** 32) - pv):
+                    ok, det = False, "line %d sets ERROR for a port that parsed and may be <= UINT32_MAX (trail %s)" % (s["loc"][0], st.trail[-4:])
+    R.check(ok and n_err >= 1 and n_port >= 1, "VIEW", "s_parse_authority:port-range", "%s()" % f.name, "a parsed port is refused only above UINT32_MAX and stored only when it fits (%d/%d states)" % (n_err, n_port),
+            "the port range accepted is not 0..UINT32_MAX: %s" % det)
+
+
 def analyse(ctx, replace=None, only=None):
     R = ctx.R
     units = [u for u in library_units(ctx.ex.repo) if "external" not in u]
@@ -500,9 +688,15 @@ def analyse(ctx, replace=None, only=None):
     builder(R, P)
     alphabet(R, P)
     query(R, P)
+    iterator_state(R, P)
+    decoder_total(R, P)
+    port_range(R, P)
 
 
 MUTANTS = [
+    {"name": "iterator-resumes-by-lengths", "file": FILE, "expect": "QUERY", "old": "        substr.len = (param->value.ptr - param->key.ptr) + param->value.len;", "new": "        substr.len = param->key.len + 1 + param->value.len;"},
+    {"name": "decoder-rejects-zero-byte", "file": FILE, "expect": "ENCODER", "old": "            if (AWS_UNLIKELY(aws_byte_cursor_read_hex_u8(&advancing, &c) == false)) {", "new": "            aws_byte_cursor_read_hex_u8(&advancing, &c);\n            if (AWS_UNLIKELY(!c)) {"},
+    {"name": "port-max-refused", "file": FILE, "expect": "VIEW", "old": "            if (port_u64 > UINT32_MAX) {", "new": "            if (port_u64 >= UINT32_MAX) {"},
     {"name": "parse-callers-text", "file": FILE, "expect": "OWN-COPY", "old": "    struct aws_byte_cursor uri_cur = aws_byte_cursor_from_buf(&uri->uri_str);", "new": "    struct aws_byte_cursor uri_cur = aws_byte_cursor_from_array(uri->uri_str.buffer, uri->uri_str.capacity);"},
     {"name": "password-len-off", "file": FILE, "expect": "VIEW", "old": "parser->uri->userinfo.len - parser->uri->user.len - 1;", "new": "parser->uri->userinfo.len - parser->uri->user.len;"},
     {"name": "query-view-one-too-long", "file": FILE, "expect": "VIEW", "old": "        parser->uri->query_string.len = str->len - 1;", "new": "        parser->uri->query_string.len = str->len;"},
